@@ -167,6 +167,8 @@ def check_C13(rep, fl):
     # doorkeeper recognises the first - Bloom::contains probes exactly the positions Bloom::add set
     import props_store
     props_store.keep_rules(rep, fl, check_C14, {"R14.1"}, rename="R13.6")
+    # "the doorkeeper is emptied": Bloom::reset / clear zero every word of the bit array (R14.4), not a prefix of it
+    props_store.keep_sites(rep, fl, check_C14, ("zero all words",))
     get = facts.body(ROW + "::get")
     inc = facts.body(ROW + "::increment")
     i = V("i")
@@ -491,6 +493,31 @@ def check_reset_complete(rep, fl, rule, only=None):
                       "%s::%s leaves %s as it was: the %s state survives the reset, so the object does not behave like a fresh one" % (short(owner), m, ", ".join(left), ", ".join(left)))
 
 
+def check_policy_reset(rep, fl, rule="R11.2"):
+    """The policy's `clear()` gives a fresh policy: every field of PolicyInner that some method changes after
+    construction is written (or handed out mutably - `inner.admit.clear()`) by LFUPolicy::clear as well.  A field that
+    remembers something across a clear - the last rejected key, a cached sample - makes the cleared cache decide
+    admissions differently from a new one."""
+    facts = fl.facts
+    other = "r#async" if fl.name == "sync" else "::sync::"
+    owner = "policy::PolicyInner"
+    muts, names = field_mutators(facts, owner, other)
+    clear_root = fl.policy + "::clear"
+    if not names or clear_root not in muts:
+        rep.missing(rule, fl, "type %s / %s" % (owner, clear_root))
+        return
+    ctor = lambda root: root.split("::")[-1] in ("new", "default", "with_hasher", "clone")
+    state = set()
+    for root, flds in muts.items():
+        if ctor(root) or root == clear_root:
+            continue
+        state |= flds
+    left = sorted(state - muts[clear_root])
+    rep.check(not left and len(state) >= 2, rule, fl, facts.body(clear_root, required=False) or clear_root, "resets all mutable state",
+              "%s::clear resets every field of PolicyInner that changes after construction (%s)" % (short(fl.policy), ", ".join(sorted(state))),
+              "%s::clear leaves %s as it was: what the policy remembered there survives clear(), so the cleared cache does not decide like a fresh one" % (short(fl.policy), ", ".join(left) or "(no mutable state found)"))
+
+
 def check_counters_plumbing(rep, fl, rule="R13.8"):
     """The builder's num_counters is the estimator's size: finalize hands `inner.num_counters` to the policy
     constructor, which hands it on unchanged to PolicyInner::with_hasher and TinyLFU::new, where it becomes the
@@ -600,6 +627,7 @@ def check_tinylfu(rep, fl):
     check_contains_or_add(rep, fl)
     # "on a fresh or cleared estimator every key estimates zero": nothing the estimator accumulates survives clear / reset
     check_reset_complete(rep, fl, "R13.3", only=(BLOOM, CMS, TLFU))
+
     check_counters_plumbing(rep, fl)
     # "clear() zeroes everything": the policy's clear reaches TinyLFU::clear on every path
     import props_life
@@ -672,10 +700,14 @@ def bloom_cell(body):
     bit = None
     # pointer: cast(... Add(base as usize, off)) ; find the Add whose one side is as_ptr/as_mut_ptr
     exprs = []
+    # the position is the function's one argument, whatever it is called and whichever integer type it arrives in (a
+    # `u64` narrowed to usize inside is the same number on the 64-bit targets the pointer arithmetic assumes)
+    pn = V(body.local_name.get(2, "idx"))
+    ren = {("cast", "usize", pn): idx, ("cast", "u64", pn): idx, pn: idx}
     for bi in body.live_blocks():
         for st in body.blocks[bi]["stmts"]:
             if st["k"] == "assign":
-                exprs.append(norm(body.rvalue_expr(st["rv"], True)))
+                exprs.append(norm(subst(norm(body.rvalue_expr(st["rv"], True)), ren)))
     for e in exprs:
         # the address: a pointer-typed cast of (base as usize + offset terms)
         if e[0] == "cast" and e[1].startswith("*") and offs is None:
@@ -832,7 +864,9 @@ def check_C14(rep, fl):
         shift = norm(F(V("self"), "shift"))
         h = ("bin", "Shr", hash_, shift)
         l = ("bin", "Shr", ("bin", "Shl", hash_, shift), shift)
-        want = norm(("cast", "usize", ("bin", "BitAnd", ("bin", "Add", h, ("bin", "Mul", ("elem",), l)), F(V("self"), "size"))))
+        want = norm(("bin", "BitAnd", ("bin", "Add", h, ("bin", "Mul", ("elem",), l)), F(V("self"), "size")))
+        # (the narrowing to usize may sit at the call or inside set / is_set)
+        pos_add, pos_con = (x[2] if x[0] == "cast" and x[1] in ("usize", "u64") else x for x in (norm(pos_add), norm(pos_con)))
         rep.check(pos_add == pos_con, "R14.1", fl, BLOOM, "add==contains", "add and contains probe the same positions: %s" % show(pos_add),
                   "add probes %s but contains probes %s: an added hash can be reported absent" % (show(pos_add), show(pos_con)))
         rep.check(pos_add == want, "R14.1", fl, add, "positions", "positions are (h + i*l) & size with h = hash >> shift, l = (hash << shift) >> shift",
